@@ -11,7 +11,10 @@
    switch, if, let, print. *)
 From Soy Require Import Proofs.SourceTieScope.
 From Soy Require Import Model.Bytes Model.Num Model.Values Model.Outcome Model.Ast
-  Model.Escape Model.Interp Spec.Cmd Proofs.ScopeRel Proofs.ScopeProofs Proofs.ScopeSpecProofs.
+  Model.Escape Model.Interp Spec.Expr Spec.Cmd Spec.CmdIndep Proofs.ScopeRel Proofs.ScopeProofs Proofs.ScopeSpecProofs
+  Proofs.ScopeIndepProofs Proofs.ScopeIndepBridge
+  Model.Token Model.Parser Model.Compile Spec.CallNames Proofs.CompilePermProofs Proofs.ScopeNames Proofs.ScopeRegistry
+  Model.RawText Spec.Text Spec.CmdText Proofs.ScopeText Proofs.ScopeCmdLemmas Proofs.ScopeNsOnce.
 Open Scope N_scope.
 
 (* ------------------------------------------------------------------ *)
@@ -52,6 +55,49 @@ Theorem command_restores_scope : forall cf fuel c st en entry v st',
   walk cf fuel c st = (Ok v, st') -> ctx st' = ctx st /\ mode st' = mode st.
 Proof. exact walk_restores_scope. Qed.
 Print Assumptions command_restores_scope.
+
+(* ------------------------------------------------------------------ *)
+(* C02 composed with C01: the same theorem against a Spec that shares NO
+   operator / function / access clause with the model.
+
+   Spec/CmdIndep.v [render_spec_indep] = the command clauses of Spec/Cmd.v
+   (blocks, lets, loops, calls: lexical environments) with every expression
+   that [of_node] can read back (literals, list/map literals, data references
+   and $ij with all access forms, the thirteen built-in functions, unary and
+   binary operators, ?: and the ternary) evaluated by Spec/Expr.v [eval_spec]
+   -- the declarative expression semantics of C01, written from the language
+   description over its own syntax, with its own operator semantics
+   (sem_strict, apply_fn_spec) and NO fuel.  Only an expression that mentions
+   index/isFirst/isLast or a compile-time global keeps Spec/Cmd.v's clause.
+
+   The statement has two escape clauses, both about the comparison and not
+   about the code: the model ran out of fuel (excluded by giving it more:
+   C06 render_fuel_monotone), or the composed Spec leaves the language's
+   answer open (OutOfModel: a float result that is not a binary64, an integer
+   outside int64, randomInt).  Otherwise: same bytes, same outcome class
+   (error MESSAGES are not compared: Spec/Expr.v has one). *)
+Theorem exec_impl_spec_indep : forall cf fuel name data_id data first_id,
+  wf_registry (c_reg cf) = true ->
+  let r := render cf fuel name data_id data None None first_id in
+  let s := render_spec_indep cf fuel name data first_id in
+  rr_outcome r = OutOfFuel \/ sr_outcome s = OutOfModel \/
+  (concat_b (rr_writes r) = sr_out s /\ outcome_class_agrees (rr_outcome r) (sr_outcome s)).
+Proof. exact exec_impl_spec_indep_lemma. Qed.
+Print Assumptions exec_impl_spec_indep.
+
+(* the two Specs, level by level (expressions, commands, lets) *)
+Theorem specs_agree : forall cf, wf_registry (c_reg cf) = true ->
+  forall fuel, lv_agree (spec_level cf fuel) (indep_level cf fuel).
+Proof. exact indep_levels_agree. Qed.
+Print Assumptions specs_agree.
+
+(* one expression: Spec/Cmd.v's clause against Spec/Expr.v, positions and the
+   quoted source text of string literals being irrelevant *)
+Theorem expression_clause_is_C01 : forall cf fuel en n nid x,
+  wf_registry (c_reg cf) = true -> of_node n = Some x ->
+  cagree (sE (l_eval (spec_level cf fuel) en n) nid) (sE (Expr.eval_spec [] en (c_ij cf) x) nid).
+Proof. exact expr_bridge. Qed.
+Print Assumptions expression_clause_is_C01.
 
 (* ------------------------------------------------------------------ *)
 (* the two scoping sentences, as lemmas of the Spec *)
@@ -97,6 +143,244 @@ Proof. exact ScopeSpecProofs.caller_env_restored. Qed.
 Print Assumptions caller_env_restored.
 
 (* ------------------------------------------------------------------ *)
+(* which template a call denotes: same-namespace (.x), aliased and fully
+   qualified names.  The resolution happens in the parser (Model/Parser.v,
+   parse_call / parse_alias / parse_template, tied to parse/parse.go by the
+   parser harnesses and by this property's resolve_name check) and in
+   Registry.Add (Model/Compile.v registry_add, tied by C13's harness); the
+   walker only looks the resolved name up.  Spec/CallNames.v says what the
+   language defines; these theorems say the parser and the registry do that,
+   for every token stream / every list of files. *)
+
+(* the parser's resolution function computes the Spec's relation, which is a function *)
+Theorem call_name_resolution : forall s written,
+  resolves (c_ns s) (c_al s) written (resolve_name s written) /\
+  (forall full, resolves (c_ns s) (c_al s) written full -> resolve_name s written = full).
+Proof. intros s written. split; [apply resolve_name_spec | apply resolve_name_complete]. Qed.
+Print Assumptions call_name_resolution.
+
+(* whatever {call ...} parses to carries the written name (before the attributes, or name="...")
+   resolved against the namespace and aliases in force where the call stands *)
+Theorem call_node_name_resolved : forall inlen unq lexq pexpr efuel pe w lf token s n s',
+  parse_call inlen lexq unq pexpr efuel pe w lf token s = Parser.COk n s' ->
+  exists name0 s1 attrs s2 full alldata dat params,
+    call_name lf s = Parser.COk name0 s1 /\
+    attrs_loop inlen unq lf [k_name; k_data] [] s1 = Parser.COk attrs s2 /\
+    written_name name0 attrs <> [] /\
+    resolves (c_ns s) (c_al s) (written_name name0 attrs) full /\
+    n = NCall (t_pos token) full alldata dat params.
+Proof. exact parse_call_resolves. Qed.
+Print Assumptions call_node_name_resolved.
+
+(* {alias a.b.c} puts c -> a.b.c in front of the aliases and leaves the namespace alone *)
+Theorem alias_binds_last_segment : forall inlen f s s',
+  parse_alias inlen f s = Parser.COk tt s' ->
+  exists first segs, c_ns s' = c_ns s /\ c_al s' = (alias_key first segs, alias_target first segs) :: c_al s.
+Proof. exact parse_alias_binds. Qed.
+Print Assumptions alias_binds_last_segment.
+
+(* {template .x} is named namespace + .x (the namespace in force at its end tag; that a second
+   {namespace} is a parse error is parse_namespace's first clause) *)
+Theorem template_node_name : forall inlen unq w lf token s n s',
+  parse_template inlen unq w lf token s = Parser.COk n s' ->
+  exists id body ae priv, n = NTemplate (t_pos token) (declared_name (c_ns s') (t_val id)) body ae priv.
+Proof. exact parse_template_name. Qed.
+Print Assumptions template_node_name.
+
+(* tree.namespace is written once: EVERY procedure of the command parser, down to itemList (and so
+   parse.SoyFile), leaves a non-empty namespace as it is; only {namespace} assigns it, only while it is
+   empty, and the node it returns carries the same name *)
+Theorem namespace_written_once : forall inlen lexq unq pexpr efuel fuel unt s,
+  mono s (item_list inlen lexq unq pexpr efuel fuel unt s).
+Proof. exact item_list_ns_once. Qed.
+Print Assumptions namespace_written_once.
+Theorem namespace_tag_sets : forall inlen unq f token s n s',
+  parse_namespace inlen unq f token s = Parser.COk n s' ->
+  exists name ae, n = NNamespace (t_pos token) name ae /\ c_ns s' = name /\ c_ns s = [].
+Proof. exact parse_namespace_sets. Qed.
+Print Assumptions namespace_tag_sets.
+(* hence a {template .x} whose start tag is read under the namespace ns <> "" is named ns.x, whatever its body holds *)
+Theorem template_named_by_file_namespace : forall inlen lexq unq pexpr efuel fuel token s n s',
+  c_ns s <> [] ->
+  parse_template inlen unq (item_list inlen lexq unq pexpr efuel fuel) fuel token s = Parser.COk n s' ->
+  exists id body ae priv, n = NTemplate (t_pos token) (declared_name (c_ns s) (t_val id)) body ae priv /\ c_ns s' = c_ns s.
+Proof. exact ScopeNsOnce.template_named_by_file_namespace. Qed.
+Print Assumptions template_named_by_file_namespace.
+
+(* Bundle.Compile's loop over the files: the lookup of a name finds exactly the templates the
+   files declare, and names are unique *)
+Theorem registry_lookup_exact : forall srcs r, add_all_files empty_creg srcs = COk r ->
+  exists fs, srcs = map SrcOk fs /\ NoDup (map t_name (all_ts fs)) /\
+    forall name t, find_template (r_templates (cr_reg r)) name = Some t <-> (In t (all_ts fs) /\ t_name t = name).
+Proof. exact ScopeRegistry.registry_lookup_exact. Qed.
+Print Assumptions registry_lookup_exact.
+
+Theorem declared_template_found : forall srcs r, add_all_files empty_creg srcs = COk r ->
+  forall f l1 p name body ae priv l2,
+  In (SrcOk f) srcs -> sfile_body f = l1 ++ NTemplate p name body ae priv :: l2 ->
+  exists t lp nodes,
+    body = NList lp nodes /\
+    find_template (r_templates (cr_reg r)) name = Some t /\
+    t_name t = name /\ t_node t = NTemplate p name (NList lp (snd (span_headers nodes))) ae priv /\
+    find_namespace (sfile_body f) = inr (t_ns_name t, t_ns_autoescape t) /\ t_file t = sfile_name f.
+Proof. exact ScopeRegistry.declared_template_found. Qed.
+Print Assumptions declared_template_found.
+
+Theorem found_template_declared : forall srcs r, add_all_files empty_creg srcs = COk r ->
+  forall name t, find_template (r_templates (cr_reg r)) name = Some t ->
+  exists f l1 p lp nodes ae priv l2,
+    In (SrcOk f) srcs /\ sfile_body f = l1 ++ NTemplate p name (NList lp nodes) ae priv :: l2 /\
+    t_node t = NTemplate p name (NList lp (snd (span_headers nodes))) ae priv /\
+    find_namespace (sfile_body f) = inr (t_ns_name t, t_ns_autoescape t) /\ t_file t = sfile_name f.
+Proof. exact ScopeRegistry.found_template_declared. Qed.
+Print Assumptions found_template_declared.
+
+(* end to end on the Spec side: a call whose resolved name is that of a {template} tag of some file
+   of the bundle runs that tag's body (header params taken out) in the callee environment, under the
+   autoescape mode of the namespace of the CALLEE's file *)
+Theorem call_runs_declared_template : forall cf srcs r f l1 p name body ae priv l2 l entry md en pc alldata dat params,
+  add_all_files empty_creg srcs = COk r -> c_reg cf = cr_reg r ->
+  In (SrcOk f) srcs -> sfile_body f = l1 ++ NTemplate p name body ae priv :: l2 ->
+  exists lp nodes ns nsae,
+    body = NList lp nodes /\ find_namespace (sfile_body f) = inr (ns, nsae) /\
+    exec_body cf l entry md en (NCall pc name alldata dat params) =
+    (base <~~ base_spec l entry en alldata dat ;;
+     ps <~~ params_spec l entry md en params [] ;;
+     l_exec l (ps ++ base) (ps ++ base) (call_mode nsae)
+            (NTemplate p name (NList lp (snd (span_headers nodes))) ae priv)).
+Proof. exact ScopeRegistry.call_runs_declared_template. Qed.
+Print Assumptions call_runs_declared_template.
+
+(* ------------------------------------------------------------------ *)
+(* the commands that only produce text, at the token level (Model/Parser.v):
+   special-character commands, {literal}, and plain template text.  In the tree
+   all three are raw-text nodes; these theorems say WHICH bytes the node holds,
+   and raw_text_written_exactly that the walker writes those bytes as they are
+   (exec_impl_spec already says the same of the Spec: exec_body of NRawText is
+   [semit text]). *)
+
+(* the lexer's keyword table and the parser's character table together realise the language's list
+   {sp} {nil} {\n} {\r} {\t} {lb} {rb}, and nothing more *)
+Theorem special_char_tables :
+  Forall (fun kc => exists ty, assoc_s (fst kc) Tables.builtin_idents = Some ty /\
+                               assoc ty Tables.parser_special_chars = Some (snd kc)) special_char_commands /\
+  length Tables.parser_special_chars = length special_char_commands.
+Proof. exact ScopeText.special_char_tables. Qed.
+Print Assumptions special_char_tables.
+
+(* "{" already read; the command token and "}" follow: one raw-text node holding the table's characters *)
+Theorem special_char_tag : forall inlen lexq unq pexpr efuel pe w lf s ty p v prd vrd rest txt,
+  assoc ty Tables.parser_special_chars = Some txt ->
+  reads s [tk ty p v; tk Tables.pit_RightDelim prd vrd] rest ->
+  exists s', begin_tag inlen lexq unq pexpr efuel pe w lf s = Parser.COk (Some (NRawText p txt)) s' /\
+             reads s' [] rest /\ same_names s s'.
+Proof. exact ScopeText.special_char_tag. Qed.
+Print Assumptions special_char_tag.
+
+(* {literal}body{/literal}: a raw-text node holding exactly the body -- no line joining, no comments, no tags *)
+Theorem literal_tag : forall inlen lexq unq pexpr efuel pe w lf s p v p1 v1 pb body p2 v2 p3 v3 p4 v4 rest,
+  reads s [tk Tables.pit_Literal p v; tk Tables.pit_RightDelim p1 v1; tk Tables.pit_Text pb body;
+           tk Tables.pit_LeftDelim p2 v2; tk Tables.pit_LiteralEnd p3 v3; tk Tables.pit_RightDelim p4 v4] rest ->
+  exists s', begin_tag inlen lexq unq pexpr efuel pe w lf s = Parser.COk (Some (NRawText pb (literal_text body))) s' /\
+             reads s' [] rest /\ same_names s s'.
+Proof. exact ScopeText.literal_tag. Qed.
+Print Assumptions literal_tag.
+
+(* a run of text tokens (the first one just read), followed by any other token: one raw-text node holding the
+   concatenation normalised by C15's line-joining rule (with NUL as a third tight joiner, see
+   C15_rawtext_run_general), trimmed at the end when a comment follows; nothing when that is empty;
+   the token after the run is backed up *)
+Theorem text_run_node : forall inlen lexq unq pexpr efuel pe w lf until s p0 v0 more nx rest,
+  (length more + 1 < lf)%nat -> one_of Tables.pit_Text until = false ->
+  reads s (text_toks more ++ [nx]) rest -> tis nx Tables.pit_Text = false ->
+  let joined := normalize_with is_tight_joiner false (tis nx Tables.pit_Comment) (v0 ++ concat (map snd more)) in
+  exists s',
+    text_or_tag inlen lexq unq pexpr efuel pe w lf (tk Tables.pit_Text p0 v0) until s =
+      Parser.COk (match joined with [] => None | _ => Some (NRawText p0 joined) end, false) s' /\
+    p_peek (c_p s') = 1%nat /\ p_tok0 (c_p s') = nx /\ p_rest (c_p s') = rest /\ same_names s s'.
+Proof. exact ScopeText.text_run_node. Qed.
+Print Assumptions text_run_node.
+
+Theorem raw_text_written_exactly : forall cf f p t st,
+  good st -> bufs st = [] ->
+  exists st', walk cf (S f) (NRawText p t) st = (Ok VUndef, st') /\ out st' = t :: out st /\
+              bufs st' = [] /\ ctx st' = ctx st /\ mode st' = mode st.
+Proof. exact ScopeText.rawtext_written_exactly. Qed.
+Print Assumptions raw_text_written_exactly.
+
+(* ------------------------------------------------------------------ *)
+(* switch with several values per case, css, log, debugger, plural: what the
+   Spec (and so, by exec_impl_spec, the walker) does, in readable form; and the
+   parser's side of {case v1, v2, ...} and {css ...} *)
+
+(* a case is taken iff the switch value equals one of its values (tried left to right, stopping at the
+   first hit); {default} is always taken; no case: nothing *)
+Theorem switch_case_taken : forall l entry md en sv p vs vals body r n,
+  pure_vals l en vs vals -> existsb (equals sv) vals = true ->
+  switch_spec l entry md en sv (NSwitchCase p vs body :: r) n = l_exec l entry en md body n.
+Proof. exact ScopeCmdLemmas.switch_case_taken. Qed.
+Theorem switch_case_skipped : forall l entry md en sv p vs vals body r n,
+  pure_vals l en vs vals -> vs <> [] -> existsb (equals sv) vals = false ->
+  switch_spec l entry md en sv (NSwitchCase p vs body :: r) n = switch_spec l entry md en sv r n.
+Proof. exact ScopeCmdLemmas.switch_case_skipped. Qed.
+Theorem switch_values_stop_at_first_hit : forall l en sv x xs v n n',
+  l_eval l en x n = Ok (v, n') -> equals sv v = true -> case_hit_spec l en sv (x :: xs) n = Ok (true, n').
+Proof. exact case_hit_stops. Qed.
+Theorem switch_default_taken : forall l entry md en sv p body r n,
+  switch_spec l entry md en sv (NSwitchCase p [] body :: r) n = l_exec l entry en md body n.
+Proof. exact ScopeCmdLemmas.switch_default_taken. Qed.
+Print Assumptions switch_case_taken.
+Print Assumptions switch_case_skipped.
+
+(* the parser puts into a {case} node exactly the expressions between the commas, in source order:
+   at least one for {case}, none for {default} *)
+Theorem case_values_in_order : forall inlen pe w f token values s n s',
+  case_loop inlen pe w f token values s = Parser.COk n s' ->
+  exists more body, n = NSwitchCase (t_pos token) (values ++ more) body /\
+    Forall (fun v => exists s0 s1, pe 0 s0 = Parser.COk v s1) more /\
+    (if tis token Tables.pit_Default then more = [] else more <> []).
+Proof. exact ScopeCmdLemmas.case_values_in_order. Qed.
+Print Assumptions case_values_in_order.
+
+(* css: the suffix; with an expression, its string, a dash, the suffix *)
+Theorem css_plain : forall cf l entry md en p suffix n,
+  exec_body cf l entry md en (NCss p None suffix) n = (suffix, Ok (tt, n)).
+Proof. exact ScopeCmdLemmas.css_plain. Qed.
+Theorem css_expr : forall cf l entry md en p x suffix n v n' s,
+  l_eval l en x n = Ok (v, n') -> value_string v = Ok s ->
+  exec_body cf l entry md en (NCss p (Some x) suffix) n = ((s ++ s_dash) ++ suffix, Ok (tt, n')).
+Proof. exact ScopeCmdLemmas.css_expr. Qed.
+Theorem css_tag_shape : forall inlen lexq pexpr efuel token s n s',
+  parse_css inlen lexq pexpr efuel token s = Parser.COk n s' ->
+  exists cmd : tok,
+    match last_index_of 44 (t_val cmd) with
+    | None => n = NCss (t_pos token) None (trim_space (t_val cmd))
+    | Some i => exists e s2 s3,
+        parse_quoted_expr inlen lexq pexpr efuel (trim_space (take i (t_val cmd))) s2 = Parser.COk e s3 /\
+        n = NCss (t_pos token) (Some e) (trim_space (drop (S i) (t_val cmd)))
+    end.
+Proof. exact ScopeCmdLemmas.css_tag_shape. Qed.
+Print Assumptions css_tag_shape.
+
+(* log renders its body and writes nothing; debugger does nothing *)
+Theorem log_writes_nothing : forall cf l entry md en p body n, fst (exec_body cf l entry md en (NLog p body) n) = [].
+Proof. exact ScopeCmdLemmas.log_writes_nothing. Qed.
+Theorem debugger_nothing : forall cf l entry md en p n, exec_body cf l entry md en (NDebugger p) n = ([], Ok (tt, n)).
+Proof. exact ScopeCmdLemmas.debugger_nothing. Qed.
+
+(* plural without a bundle: the explicit case equal to the number, else the default *)
+Theorem plural_explicit_case : forall l entry md en mp i dflt cs1 p body cs2 n,
+  forallb (fun c => negb (plural_case_is i c)) cs1 = true ->
+  plural_spec l entry md en mp i dflt (cs1 ++ NMsgPluralCase p i body :: cs2) n =
+  l_exec l entry en md (NMsg mp 0 [] [] body) n.
+Proof. exact ScopeCmdLemmas.plural_explicit_case. Qed.
+Theorem plural_default : forall l entry md en mp i dflt cs n,
+  forallb (fun c => negb (plural_case_is i c)) cs = true ->
+  plural_spec l entry md en mp i dflt cs n = l_exec l entry en md (NMsg mp 0 [] [] dflt) n.
+Proof. exact ScopeCmdLemmas.plural_default. Qed.
+Print Assumptions plural_explicit_case.
+
+(* ------------------------------------------------------------------ *)
 (* non-vacuity: a bundle with a let that shadows a param inside an {if},
    data="all" from under that let, a foreach whose variable shadows the same
    param, a call with an explicit param computed from index($a).
@@ -134,8 +418,65 @@ Example C02_example_model :
   let r := render ex_cf 50 (b "ns.t0") 2 ex_data None None 1000 in
   concat_b (rr_writes r) = b "91150611" /\ rr_outcome r = Ok tt.
 Proof. vm_compute. split; reflexivity. Qed.
+(* the composed Spec on the same bundle; [1,2]-style operands go through Spec/Expr.v, index($a) falls back *)
+Example C02_example_indep :
+  render_spec_indep ex_cf 50 (b "ns.t0") ex_data 1000 = {| sr_out := b "91150611"; sr_outcome := Ok tt |}.
+Proof. vm_compute. reflexivity. Qed.
+Example C02_example_of_node :
+  of_node (NListLit 0 [NInt 0 5; NInt 0 6]) = Some (EList [EInt 5; EInt 6]) /\
+  of_node (NBin OAdd 3 (NDataRef 4 ex_a [NAccKey 5 true (b "k")]) (NFunc 7 (b "length") [NDataRef 8 ex_a []])) =
+    Some (EBin BAdd (ERef ex_a [AKey true (b "k")]) (ECall FLength [ERef ex_a []])) /\
+  of_node (NFunc 0 (b "index") [ex_ref]) = None /\
+  indep_coverage (c_reg ex_cf) = (8, 9).
+Proof. vm_compute. repeat split; reflexivity. Qed.
+(* the composed Spec has no fuel for expressions: a value where the fuelled one gives up *)
+Example C02_example_indep_nofuel :
+  l_eval (indep_level ex_cf 1) [] (NNot 0 (NNot 0 (NNot 0 (NBool 0 true)))) 5 = Ok (VBool false, 5) /\
+  l_eval (spec_level ex_cf 1) [] (NNot 0 (NNot 0 (NNot 0 (NBool 0 true)))) 5 = OutOfFuel.
+Proof. vm_compute. split; reflexivity. Qed.
 (* and an erroring one: too little fuel is reported by both sides alike *)
 Example C02_example_fuel :
   sr_outcome (render_spec ex_cf 3 (b "ns.t0") ex_data 1000) = OutOfFuel /\
   rr_outcome (render ex_cf 3 (b "ns.t0") 2 ex_data None None 1000) = OutOfFuel.
 Proof. vm_compute. split; reflexivity. Qed.
+
+(* call names: file 1 = namespace a.b, {alias x.y.c}, template .t0 ; file 2 = namespace x.y.c, template .t1 *)
+Definition ex_st : cst := add_alias (set_ns (cst_init []) (b "a.b")) (b "c") (b "x.y.c").
+Example C02_example_resolve :
+  resolve_name ex_st (b ".t1") = b "a.b.t1" /\ resolve_name ex_st (b "c.t1") = b "x.y.c.t1" /\
+  resolve_name ex_st (b "x.y.c.t1") = b "x.y.c.t1" /\ resolve_name ex_st (b "q.t1") = b "q.t1" /\
+  alias_key (b "x") [b ".y"; b ".c"] = b "c" /\ alias_target (b "x") [b ".y"; b ".c"] = b "x.y.c".
+Proof. vm_compute. repeat split; reflexivity. Qed.
+Definition ex_f1 : sfile :=
+  {| sfile_name := b "f1.soy"; sfile_text := [];
+     sfile_body := [NNamespace 0 (b "a.b") 0; NSoyDoc 0 [];
+                    NTemplate 0 (b "a.b.t0") (NList 0 [NCall 0 (b "x.y.c.t1") false None []]) 0 false] |}.
+Definition ex_f2 : sfile :=
+  {| sfile_name := b "f2.soy"; sfile_text := [];
+     sfile_body := [NNamespace 0 (b "x.y.c") 2; NSoyDoc 0 [];
+                    NTemplate 0 (b "x.y.c.t1") (NList 0 [NHeaderParam 0 false ex_a (b "?") None; NPrint 0 ex_ref []]) 0 false] |}.
+Example C02_example_registry :
+  exists r, add_all_files empty_creg [SrcOk ex_f1; SrcOk ex_f2] = COk r /\
+    option_map (fun t => (t_ns_autoescape t, t_params t, t_node t)) (find_template (r_templates (cr_reg r)) (b "x.y.c.t1")) =
+    Some (2, [(ex_a, false)], NTemplate 0 (b "x.y.c.t1") (NList 0 [NPrint 0 ex_ref []]) 0 false).
+Proof. eexists. split; vm_compute; reflexivity. Qed.
+
+(* text level: {lb}, then {literal} a<LF>  // b {/literal}: the brace, and the body untouched *)
+Example C02_example_text_tags :
+  exists s1 s2,
+    begin_tag 100 (fun _ => []) (fun _ => None) (fun _ _ _ => PFuel) (fun _ => 0%nat) (fun _ _ => CFuel) (fun _ _ => CFuel) 5
+      (cst_init [tk 84 1 (b "lb"); tk 4 3 (b "}")]) = Parser.COk (Some (NRawText 1 (b "{"))) s1 /\
+    begin_tag 100 (fun _ => []) (fun _ => None) (fun _ _ _ => PFuel) (fun _ => 0%nat) (fun _ _ => CFuel) (fun _ _ => CFuel) 5
+      (cst_init [tk 68 1 (b "literal"); tk 4 8 (b "}"); tk 6 9 (b "a" ++ [10] ++ b "  // b "); tk 3 20 (b "{");
+                 tk 94 21 (b "/literal"); tk 4 29 (b "}")]) =
+      Parser.COk (Some (NRawText 9 (b "a" ++ [10] ++ b "  // b "))) s2.
+Proof. eexists. eexists. split; vm_compute; reflexivity. Qed.
+
+(* switch: {switch 2}{case 1, 2}A{case 2}B{default}C{/switch} prints A; with 5: C *)
+Definition ex_sw (v : Z) : node :=
+  NSwitch 0 (NInt 0 v) [NSwitchCase 0 [NInt 0 1; NInt 0 2] (NRawText 0 (b "A")); NSwitchCase 0 [NInt 0 2] (NRawText 0 (b "B"));
+                        NSwitchCase 0 [] (NRawText 0 (b "C"))].
+Example C02_example_switch :
+  fst (exec_spec ex_cf 9 [] [] 1 (ex_sw 2) 7) = b "A" /\ fst (exec_spec ex_cf 9 [] [] 1 (ex_sw 5) 7) = b "C" /\
+  pure_vals (spec_level ex_cf 5) [] [NInt 0 1; NInt 0 2] [VInt 1; VInt 2].
+Proof. split; [vm_compute; reflexivity|]. split; [vm_compute; reflexivity|]. repeat constructor. Qed.
